@@ -24,6 +24,13 @@ CHECKS["C04"] = dict(
     ref="5/C04",
 )
 
+CHECKS["C01"] = dict(
+    technique="TLA+ TTFont life-cycle state machine (FontLifecycle.tla) model-checked; recorded lives of real TTFont objects replayed by TLC through the same actions (trace validation with learned decoder)",
+    text="TLC explores the life-cycle machine (Open/Access/Edit/Save=Write*/Reopen) for every decoder/encoder pair satisfying the codec hypothesis and every access/save order, checking Passthrough, NoDecoderVerbatim, FixedPoint and Complete; the schedules are then executed on real TTFont objects for every corpus font (sfnt, TTC members, WOFF, WOFF2, compiled TTX) x lazy in {None,True,False}, and the recorded events (injectively interned table bytes and decoded-content dumps) are replayed by TLC through the same actions, the refusing clause being the verdict.",
+    note="Trusted: TLC, the independent sfnt reader, the TTX dump as canonical content of a decoded table (interned). Masked by name: head.checkSumAdjustment, OS/2 us{First,Last}CharIndex (recomputed on every save), unused post extra names.",
+    ref="5/C01",
+)
+
 NOT_YET = "check not built yet in this round (see DESIGN.md section 10 for the build order)"
 
 
